@@ -82,4 +82,41 @@ theorem cellsWith_items (f : Style → Seq → Except Panic Style) (ts : List (T
       | error e => rfl
       | ok s' => exact ih s'
 
+/-! ### a rendered frame -/
+
+theorem renderFromB_eq (rgb su legacy : Bool) :
+    ∀ (cs : List (Cell Str)) (s : Style), renderFromB rgb su legacy s cs = bytesOfToks (renderFrom rgb su legacy s cs) := by
+  intro cs
+  induction cs with
+  | nil => intro s; unfold renderFromB renderFrom; rw [b_sgrReset]; simp [bytesOfToks, tokBytes]
+  | cons c cs ih =>
+    intro s
+    unfold renderFromB renderFrom
+    rw [bytesOfToks_append, bytesOfToks_sgrs, bytesOfToks_text, renderDeltaB_eq, ih]
+
+theorem renderFrom_sgr_mem (rgb su legacy : Bool) (P : Seq → Prop) (hreset : P sgrResetQ)
+    (hd : ∀ p n, n.ulStyle ≤ 5 → ∀ q ∈ renderDelta rgb su legacy p n, P q) :
+    ∀ (cs : List (Cell Str)) (s : Style), (∀ c ∈ cs, c.st.ulStyle ≤ 5) → ∀ q, Tok.sgr q ∈ renderFrom rgb su legacy s cs → P q := by
+  intro cs
+  induction cs with
+  | nil =>
+    intro s _ q hq
+    unfold renderFrom at hq
+    simp at hq; subst hq; exact hreset
+  | cons c cs ih =>
+    intro s hcs q hq
+    unfold renderFrom at hq
+    simp only [List.mem_append, List.mem_map, List.mem_cons] at hq
+    rcases hq with ⟨q', hq', e⟩ | h | h
+    · injection e with e; subst e
+      exact hd s c.st (hcs c (by simp)) q' hq'
+    · cases h
+    · exact ih c.st (fun d hd' => hcs d (by simp [hd'])) q h
+
+theorem good_renderFrom (cl : Str → Nat) (rgb su legacy : Bool) (cs : List (Cell Str)) (hcs : ∀ c ∈ cs, c.st.ulStyle ≤ 5)
+    (s : Style) (ht : TextOK cl (renderFrom rgb su legacy s cs)) : Good cl (renderFrom rgb su legacy s cs) :=
+  good_of cl _ ht (renderFrom_sgr_mem rgb su legacy VaxisModel.Lemmas.ParserParams.ParamsOk
+    (by rw [sgrResetQ_eq]; intro p hp; simp at hp)
+    (fun p n hn q hq => paramsOk_of_eml q (renderDelta_range rgb su legacy p n hn q hq)) cs s hcs)
+
 end VaxisModel.Lemmas.SgrShows
